@@ -672,7 +672,7 @@ Proof. vm_compute; reflexivity. Qed.
 
 Lemma ngc_cache_sites_audited :
   list_eqb pair_eqb cfg_ngc_blocks audited_ngc_blocks = true /\
-  list_eqb pair_eqb cfg_cache_uses audited_cache_uses = true.
+  list_eqb String.eqb cfg_cache_files audited_cache_files = true.
 Proof. split; vm_compute; reflexivity. Qed.
 
 Lemma bound_guards_audited : list_eqb str3_eqb cfg_bound_guards audited_bound_guards = true.
